@@ -66,7 +66,14 @@ func vh_C06_L3_transmission_count() {
 	first := a.myNextTSN
 	onWire := 0
 	fwd := false
+	// which timers expire in each round: T3 only, the tail-loss probe (PTO) before T3, or
+	// RACK and PTO only for the first rounds and T3 afterwards
+	timers := vPick(3)
 	for round := 0; round < 7; round++ {
+		if timers == 1 || (timers == 2 && round < 3) {
+			vFireRack(a)
+			vFirePTO(a)
+		}
 		for _, raw := range vWriterWake(a) { // every packet is lost
 			p := vDecode(raw)
 			for _, c := range p.chunks {
@@ -83,10 +90,15 @@ func vh_C06_L3_transmission_count() {
 				}
 			}
 		}
-		vFireRtx(a, a.t3RTX)
+		if timers != 2 || round >= 3 {
+			vFireRtx(a, a.t3RTX)
+		}
 	}
 	if dcep {
-		vassert(onWire == 7 && !fwd, "a DCEP message is retransmitted for as long as needed and never abandoned")
+		vassert(onWire >= 4 && !fwd, "a DCEP message is retransmitted for as long as needed and never abandoned")
+		if timers == 0 {
+			vassert(onWire == 7, "once per T3 expiry")
+		}
 	} else {
 		vassert(onWire >= 1 && onWire <= int(limit)+1, "a chunk is put on the wire at most N+1 times under retransmission limit N")
 		vassert(fwd, "once the policy is exhausted the peer is told to skip the message")
